@@ -32,6 +32,7 @@ type half struct {
 	buf    []byte
 	closed bool
 	gated  bool // while set, readers see no data (the bytes are "in flight")
+	cap    int  // > 0: a bounded connection buffer — Write blocks while it is full
 }
 
 func newHalf() *half { h := &half{}; h.cond = sync.NewCond(&h.mu); return h }
@@ -39,6 +40,9 @@ func newHalf() *half { h := &half{}; h.cond = sync.NewCond(&h.mu); return h }
 func (h *half) Write(p []byte) (int, error) {
 	h.mu.Lock()
 	defer h.mu.Unlock()
+	for h.cap > 0 && len(h.buf) > 0 && len(h.buf)+len(p) > h.cap && !h.closed {
+		h.cond.Wait()
+	}
 	if h.closed {
 		return 0, io.ErrClosedPipe
 	}
@@ -57,6 +61,7 @@ func (h *half) Read(p []byte) (int, error) {
 	}
 	n := copy(p, h.buf)
 	h.buf = h.buf[n:]
+	h.cond.Broadcast() // room for a blocked writer
 	return n, nil
 }
 func (h *half) Close() {
@@ -177,6 +182,10 @@ func execRK(o hx.Op) string {
 	size, req, stallMode, yield := o.Int("size"), o.Int("req"), o.Int("stall"), o.Int("yield")
 	stall := stallMode != 0
 	a, b := newHalf(), newHalf() // a: client→server bytes, b: server→client bytes
+	if o.Has("bcap") {
+		a.cap, b.cap = o.Int("bcap"), o.Int("bcap")
+	}
+	fixed := o.Str("fix") == "1"
 	cconn, sconn := &duplex{r: b, w: a}, &duplex{r: a, w: b}
 	var cs, ss side
 	cs.sub, ss.sub = make([]int, cw), make([]int, sw)
@@ -230,7 +239,22 @@ func execRK(o hx.Op) string {
 	if stallMode == 2 {
 		stalled, held = &ss, a
 	}
-	if stall {
+	both := stallMode == 3 // both directions held, both sides start a key exchange, both queue application data
+	if both {
+		a.gate(true)
+		b.gate(true)
+		cs.h.RequestKeyExchange()
+		ss.h.RequestKeyExchange()
+		t0 := time.Now()
+		for time.Since(t0) < 5*time.Second { // writers start once both KEXINITs are out: everything they write is queued
+			k1, _ := cs.h.KexState()
+			k2, _ := ss.h.KexState()
+			if k1 && k2 {
+				break
+			}
+			time.Sleep(100 * time.Microsecond)
+		}
+	} else if stall {
 		held.gate(true)
 		stalled.h.RequestKeyExchange()
 	}
@@ -249,7 +273,19 @@ func execRK(o hx.Op) string {
 					s.closed.Store(true)
 				}
 			}
-			if gated {
+			if gated && both {
+				_, p1 := cs.h.KexState()
+				_, p2 := ss.h.KexState()
+				want := n
+				if want > 40 {
+					want = 40
+				}
+				if (p1 >= want && p2 >= want) || time.Since(t0) > 3*time.Second {
+					a.gate(false)
+					b.gate(false)
+					gated = false
+				}
+			} else if gated {
 				_, p := stalled.h.KexState()
 				if p >= ssh.VerifMaxPendingPackets && fullSince.IsZero() {
 					fullSince = time.Now()
@@ -263,6 +299,8 @@ func execRK(o hx.Op) string {
 			time.Sleep(100 * time.Microsecond)
 		}
 		held.gate(false)
+		a.gate(false)
+		b.gate(false)
 	}()
 
 	var wg sync.WaitGroup
@@ -271,6 +309,9 @@ func execRK(o hx.Op) string {
 		buf := make([]byte, 6+size) // one buffer per writer, reused: writePacket must not keep a reference
 		for k := 0; k < n; k++ {
 			p := buf[:6+rr.Intn(size+1)]
+			if fixed {
+				p = buf[:6+size]
+			}
 			p[0], p[1], p[2] = appType, 0xA5, byte(w)
 			p[3], p[4], p[5] = byte(k>>16), byte(k>>8), byte(k)
 			if err := s.h.WritePacket(p); err != nil {
@@ -346,6 +387,10 @@ func execRK(o hx.Op) string {
 			}
 			time.Sleep(200 * time.Microsecond)
 		}
+	}
+	if status != "ok" { // unblock whatever is stuck inside the transport (it may hold t.mu) before joining the monitor
+		cconn.Close()
+		sconn.Close()
 	}
 	stop.Store(true)
 	mon.Wait()
@@ -553,6 +598,14 @@ func gen(g *hx.Gen) {
 		g.Emit("rk seed=%d cw=%d sw=0 n=40 thr=0 sthr=0 size=0 req=0 stall=0 yield=0 cipher=%s closekex=1", r.U64()>>1, r.Range(2, 6), c)
 		g.Stat("closekex")
 		g.Stat("pair.close-during-kex+" + c)
+	}
+	// both sides queue more application data during a key exchange than the connection buffers hold (64 KiB pipe,
+	// 40 × 8 KiB queued per side): the read loops must be released before the queues are flushed
+	for _, c := range ciphers {
+		g.Emit("rk seed=%d cw=1 sw=1 n=40 thr=%d sthr=%d size=8192 req=0 stall=3 yield=0 cipher=%s bcap=65536 fix=1", r.U64()>>1, 1<<30, 1<<30, c)
+		g.Emit("rk seed=%d cw=2 sw=2 n=30 thr=%d sthr=%d size=4096 req=1 stall=3 yield=1 cipher=%s bcap=16384 fix=1", r.U64()>>1, 1<<30, 1<<30, c)
+		g.Stat("bounded-pipe.both-queued")
+		g.Stat("pair.bounded-pipe+" + c)
 	}
 	// RekeyThreshold edge values on both sides (0 = cipher default, 255 → 256, 2^63 and 2^64−1 → 2^63−1)
 	edges := []uint64{0, 255, 256, 257, 1 << 63, 1<<64 - 1, 1<<63 - 1}
